@@ -409,8 +409,27 @@ def r25c_hashmap_retain(text, log):
     return text[:mt.start()] + new + text[semi + 1:]
 
 
+def r25d_amount_iter(text, log):
+    """R25d: `for V in A.iter() {B}` over `Amount::iter()` -> `let items__ = amount_items(A); let mut i__ = 0;
+    while i__ < items__.len() { let V = items__[i__]; B; i__ += 1; }`.  ASSUMED: Amount::iter yields `A.iter_listing()`:
+    every commodity of the amount exactly once as a SingleAmount (Amount::iter is tied to the proved Amount::sorted_values
+    by a textual anchor in group `determinism`)."""
+    m = L.mask(text)
+    mt = re.search(r"\bfor\s+(\w+)\s+in\s+(\w+)\.iter\(\)\s*\{", m)
+    if not mt:
+        raise Lost("R25d: no `for v in A.iter()` loop")
+    v, a = mt.group(1), mt.group(2)
+    bo = mt.end() - 1
+    bc = L.match_close(m, bo)
+    if re.search(r"\b(continue|break)\b", m[bo:bc]):
+        raise Lost("R25d: loop body contains continue/break")
+    head = f"let items__ = amount_items({a}); let mut i__: usize = 0;\n    while i__ < items__.len() {{ let {v} = items__[i__];"
+    log.append({"rule": "R25d-amount-iter", "before": text[mt.start():mt.end()], "after": head + " ... i__ += 1; }"})
+    return text[:mt.start()] + head + text[bo + 1:bc] + "    i__ += 1;\n    " + text[bc:]
+
+
 STRUCTURAL = {"R11c": r11_closure, "R14": r14_all, "R16m": r16_drop_methods, "R12d": r12_debug_assert, "R5": r5_for_bytes, "R7": r7_mut_self, "R0": r0_named_return, "R4": r4_format, "R12": r12_unreachable,
-              "R6": r6_for_enumerate, "R10": r10_drop_loop, "R25": r25_hashmap_iter_mut, "R25b": r25b_hashmap_into_iter, "R25c": r25c_hashmap_retain}
+              "R6": r6_for_enumerate, "R10": r10_drop_loop, "R25": r25_hashmap_iter_mut, "R25b": r25b_hashmap_into_iter, "R25c": r25c_hashmap_retain, "R25d": r25d_amount_iter}
 
 
 def apply_rewrites(text, rewrites, log):
